@@ -916,7 +916,7 @@ pub fn plan(prop: &str, tier: Tier) -> Option<Plan> {
   let mut sc = vec![];
   match prop {
     "C10" => {
-      let c2 = if q { 2 } else { 3 };
+      let c2 = if q { 2 } else { 4 };
       let c3 = if q { 1 } else { 2 };
       // shared subject: 2 threads x <=2 calls (exhaustive scripts), selected 3-call and 3-thread scripts
       let alpha = [Op::NextA(1), Op::CompleteA, Op::ErrorA, Op::Subscribe, Op::Unsubscribe, Op::UnsubSubject];
@@ -924,7 +924,7 @@ pub fn plan(prop: &str, tier: Tier) -> Option<Plan> {
       for (i, x) in s2.iter().enumerate() {
         for y in s2.iter().skip(i) {
           // the two scripts must share the subject in a way that can collide
-          sc.push(script_scenario("C10", Shape::Subject, vec![x.clone(), y.clone()], Oracle::Serialise, c2, CAP));
+          sc.push(script_scenario("C10", Shape::Subject, vec![x.clone(), y.clone()], Oracle::SubjectRules, c2, CAP));
         }
       }
       let three = vec![
@@ -933,13 +933,13 @@ pub fn plan(prop: &str, tier: Tier) -> Option<Plan> {
         vec![vec![Op::Subscribe, Op::NextA(1), Op::ErrorA], vec![Op::NextA(2), Op::Unsubscribe, Op::NextA(3)]],
       ];
       for t in three {
-        sc.push(script_scenario("C10", Shape::Subject, t, Oracle::Serialise, c2, CAP));
+        sc.push(script_scenario("C10", Shape::Subject, t, Oracle::SubjectRules, c2, CAP));
       }
       let s1 = seqs(&alpha, 1);
       for x in &s1 {
         for y in &s1 {
           for z in &s1 {
-            sc.push(script_scenario("C10", Shape::Subject, vec![x.clone(), y.clone(), z.clone()], Oracle::Serialise, c3.max(1), CAP));
+            sc.push(script_scenario("C10", Shape::Subject, vec![x.clone(), y.clone(), z.clone()], Oracle::SubjectRules, c3.max(1), CAP));
           }
         }
       }
@@ -977,6 +977,12 @@ pub fn plan(prop: &str, tier: Tier) -> Option<Plan> {
           sc.push(script_scenario("C10", shape, s, Oracle::Serialise, c, CAP));
         }
       }
+      // waiters: a lost wake-up is a call that never returns
+      for w in [Waiter::WaitForEnd, Waiter::ToFuture, Waiter::ToStream] {
+        for fail in [false, true] {
+          sc.push(waiter_scenario(w, 1, fail, c2 + 1, CAP));
+        }
+      }
       for (limit, n) in [(1usize, 2usize), (1, 3), (2, 3)] {
         sc.push(flat_scenario("C10", limit, n, c3.max(1) + if n == 2 { 1 } else { 0 }, CAP));
       }
@@ -1007,7 +1013,7 @@ pub fn plan(prop: &str, tier: Tier) -> Option<Plan> {
       }
       Some(Plan {
         scenarios: sc,
-        rule: "real _threads code on the controlled runtime: shared SubjectThreads with every pair of scripts of <=2 calls from {next, complete, error, subscribe, unsubscribe} on two threads, every triple of single calls on three threads and selected 3-call scripts; merge/zip/combine_latest/with_latest_from/take_until/skip_until/sample/merge_all (_threads) with one thread per input and an unsubscribing / subscribing third party; share_threads, finalize_threads, observe_on_threads and delay_threads (every scheduled notification is its own pool task). Every schedule within the preemption bound (scheduling points: every MutArc lock/unlock, controlled atomics, spawn/join, wake-ups). Oracle: no callback entered while another thread is inside one, notification grammar, one common order across subscribers of one subject, every thread returns (deadlock / lost wake-up = abort reported by the runtime), no panic; non-trivial = something was delivered".into(),
+        rule: "real _threads code on the controlled runtime: shared SubjectThreads with every pair of scripts of <=2 calls from {next, complete, error, subscribe, unsubscribe} on two threads, every triple of single calls on three threads and selected 3-call scripts; merge/zip/combine_latest/with_latest_from/take_until/skip_until/sample/merge_all (_threads) with one thread per input and an unsubscribing / subscribing third party; share_threads, finalize_threads, observe_on_threads and delay_threads (every scheduled notification is its own pool task). Every schedule within the preemption bound (scheduling points: every MutArc lock/unlock, controlled atomics, spawn/join, wake-ups). waiter threads (wait_for_end, to_future, to_stream) against a producer. Oracle: no callback entered while another thread is inside one, notification grammar, one common order across subscribers of one subject (a subscriber whose subscribe() returned before an emission started sees it, none sees it twice), every thread returns (deadlock / lost wake-up = abort reported by the runtime), no panic; non-trivial = something was delivered".into(),
         bounds: json!({"preemptions_two_threads": c2, "preemptions_three_threads": c3}),
         assumptions: vec!["sequentially consistent memory; futures' mpsc channel and AtomicWaker operations are indivisible steps".into()],
       })
